@@ -25,7 +25,8 @@ ALLOWED_AXIOMS = []
 PINNED = ["C14_interp", "C14_interp_inv", "C14_cond_list", "C14_parse_full", "C14_parse_partial", "C14_parse_partial_from", "C14_parse_indented", "C14_parse_indented_from", "C14_parse_indented_extends", "C14_parse_semicolon", "C14_parse_full_nosemi", "C14_parse_total_partial", "C14_trim_cmd", "C14_anchored", "C14_unbalanced_diagnosed",
           "C14_anchor_sound", "C14_full",
           "C14_grammar_wf", "C14_ev_fuel_adequate", "C14_peg_fuel_adequate", "C14_parse_from_fuel_gap",
-          "C14_parse_total_at_bound", "C14_parse_total_partial_gap"]
+          "C14_parse_total_at_bound", "C14_parse_total_partial_gap",
+          "C14_peg_fuel_above_bound", "C14_parse_never_fuel", "C14_parse_total"]
 TRUSTED = [
     "Coq 8.16.1 kernel (coqc; coqchk in thorough); vm_compute in Example witnesses, in C14_unbalanced_refuted and in the "
     "instances C14_parse_instances; C14_anchored and C14_unbalanced_examples compute on the regenerated grammar",
